@@ -130,6 +130,10 @@ func genFreshHeader(r *rng) http.Header {
 	if r.chance(20) {
 		h["Content-Type"] = []string{"text/plain"}
 	}
+	if r.chance(8) {
+		// an origin that is itself a pike (or anything else that labels its answers): the label the client sees is ours
+		h["X-Status"] = []string{r.pick([]string{"hit", "fetching", "passed"})}
+	}
 	return h
 }
 
